@@ -30,7 +30,9 @@ Matrix    == SetToSeq({<<m, k>> : m \in Modes, k \in ExprKinds \cup StmtKinds \c
                          "withitem"}} \cap {<<m, k>> \in Modes \X STRING : k \in Row(m).kinds})
 ASSUME ("OUT_FILE" \in DOMAIN IOEnv) => JsonSerialize(IOEnv.OUT_FILE, [table |-> TableRows, matrix |-> Matrix,
                                                                        shapes |-> [i \in 1..Len(ModeSeq) |-> [mode |-> ModeSeq[i], sep |-> Sep(ModeSeq[i]), shapes |-> Shapes(ModeSeq[i])]],
-                                                                       bridges |-> SetToSeq(Bridges), multiline |-> MultiLine])
+                                                                       bridges |-> SetToSeq(Bridges), multiline |-> MultiLine,
+                                                                       mlstrings |-> MLStrings, mlnodes |-> MLNodes,
+                                                                       mlslots |-> [i \in 1..Len(ModeSeq) |-> [mode |-> ModeSeq[i], slots |-> MLSlots(ModeSeq[i])]]])
 
 VARIABLES phase, frag, par, how, emb, answer
 vars == <<phase, frag, par, how, emb, answer>>
